@@ -106,7 +106,9 @@ def renderProgText (rng : Rng) (prog : List ACmdC) : Rng × List Char :=
 
 def scriptLabels (n : Nat) : List Label :=
   (List.range (n + 1)).map Lb.Label.alpha ++ ['x', 'ρ', 'σ', Char.ofNat 0x1D711].map .greek ++
-    ["foo", "hello", "βγ", "abcdefgh", "a-b"].map (fun s => .str (Lb.pad8 s.toList))
+    ["foo", "hello", "βγ", "abcdefgh", "a-b"].map (fun s => .str (Lb.pad8 s.toList)) ++
+    -- labels that look like the other kinds of argument: a variable in use, an unknown variable, a vertex, a number
+    [Lb.Label.greek '$'] ++ ["$a", "$b", "$zz", "ν1", "42"].map (fun s => .str (Lb.pad8 s.toList))
 
 def varNames : List (List Char) := ["a", "b", "x1", "ν", "v_2", "Δ", ""].map String.toList
 
